@@ -15,12 +15,12 @@ static const char *go_names[] = {"ctor_lock", "ctor_defer", "ctor_adopt", "ctor_
 enum { CFG_TICKET = 0, CFG_SIMPLE, CFG_GUARDS, CFG_QSGUARD, CFG_N };
 static const char *cfg_names[CFG_N] = {"ticket_spinlock", "simple_spinlock", "unique_lock+shared_lock<SimMutex>", "qs::lock_guard<SimMutex>"};
 
-static int P_contended, P_cs, P_guard_ops, P_guard_skipped, P_move_onto_owner, P_swap_both, P_handover, P_is_locked_checked, P_blocked_on_guard, P_adopt;
+static int P_aged, P_contended, P_cs, P_guard_ops, P_guard_skipped, P_move_onto_owner, P_swap_both, P_handover, P_is_locked_checked, P_blocked_on_guard, P_adopt;
 
 struct Slot { bool exists = false; int mutex = -1; bool owns = false; };
 
 struct LockEngine : Engine {
-	int cfg = 0, ltype = 0, nlocks = 1;
+	int cfg = 0, ltype = 0, nlocks = 1; bool aged = false;
 	void *locks[2]; char *words[2]; // 4 words per lock
 	int in_cs[2]; int holder[2];
 	std::deque<int> tickets[2];
@@ -31,7 +31,7 @@ struct LockEngine : Engine {
 	uint64_t cs_entries = 0;
 
 	LockEngine() {
-		P_contended = probe_id("lock_contended"); P_cs = probe_id("critical_sections"); P_guard_ops = probe_id("guard_ops");
+		P_aged = probe_id("aged_ticket_lock_counters_near_wraparound"); P_contended = probe_id("lock_contended"); P_cs = probe_id("critical_sections"); P_guard_ops = probe_id("guard_ops");
 		P_guard_skipped = probe_id("guard_ops_skipped_precondition"); P_move_onto_owner = probe_id("move_assign_onto_owning_guard");
 		P_swap_both = probe_id("swap_two_owning_guards"); P_handover = probe_id("lock_handover_between_tasks");
 		P_is_locked_checked = probe_id("is_locked_checked_by_holder"); P_blocked_on_guard = probe_id("guard_ctor_contended"); P_adopt = probe_id("adopt_lock");
@@ -55,6 +55,8 @@ struct LockEngine : Engine {
 		if (p.cfg <= CFG_SIMPLE) {
 			p.ntasks = 2 + (int)rng.below(3);
 			p.knobs["nlocks"] = 1 + (int)rng.below(2);
+			// aged lock: a ticket lock that has been acquired ~2^32 times, so that the counters wrap during the run
+			if (p.cfg == CFG_TICKET && rng.chance(2, 5)) p.knobs["age"] = (int64_t)(0xFFFFFFFFu - (uint32_t)rng.below(4));
 			for (int t = 1; t <= p.ntasks; t++) {
 				int n = 1 + (int)rng.below(maxops);
 				for (int i = 0; i < n; i++) {
@@ -92,7 +94,7 @@ struct LockEngine : Engine {
 	}
 
 	void setup(const Plan &p) override {
-		cfg = p.cfg; cs_entries = 0;
+		cfg = p.cfg; cs_entries = 0; aged = p.knobs.count("age") != 0;
 		memset(in_cs, 0, sizeof in_cs); memset(holder, 0, sizeof holder); memset(ticketed, 0, sizeof ticketed); memset(acquiring, -1, sizeof acquiring);
 		for (auto &q : tickets) q.clear();
 		for (int t = 0; t < MAXT; t++) { priv[t] = (char *)obj_alloc(64, 64); for (int s = 0; s < 4; s++) { model[t][s] = Slot(); slots[t][s] = nullptr; } }
@@ -102,6 +104,12 @@ struct LockEngine : Engine {
 			for (int i = 0; i < nlocks; i++) {
 				locks[i] = obj_alloc(sut_lock_size(ltype), 64);
 				sut_lock_construct(ltype, locks[i]);
+				if (ltype == LT_TICKET && p.knobs.count("age") && sut_lock_size(ltype) == 8) {
+					// equivalent to `age` uncontended lock()/unlock() pairs (both counters advance together); relies on
+					// the lock being two 32-bit counters, which is checked through its size
+					uint32_t a = (uint32_t)p.knob("age"); uint32_t both[2] = {a, a};
+					memcpy(locks[i], both, 8); shadow_fresh_write(locks[i], 8); probe(P_aged);
+				}
 				words[i] = (char *)obj_alloc(32, 64);
 				memset(words[i], 0, 32);
 			}
@@ -144,7 +152,9 @@ struct LockEngine : Engine {
 			user_write(w, 8);
 			v++; memcpy(w, &v, 8);
 		}
-		if (a->check) {
+		// is_locked() is not part of C12's statement; it is checked as an extra on fresh locks only: across the counter
+		// wrap-around ticket_spinlock::is_locked() (serving < next) misreports, which no listed property forbids
+		if (a->check && !e->aged) {
 			probe(P_is_locked_checked);
 			if (!sut_is_locked(e->ltype, e->locks[lk])) violation("is_locked_wrong", "is_locked() returned false to the holder (task %d, lock %d)", a->task, lk);
 		}
@@ -264,7 +274,7 @@ struct LockEngine : Engine {
 	void finish() override {
 		if (cfg <= CFG_SIMPLE) {
 			for (int i = 0; i < nlocks; i++) {
-				if (sut_is_locked(ltype, locks[i])) violation("is_locked_wrong", "is_locked() true for lock %d after every task released it", i);
+				if (!aged && sut_is_locked(ltype, locks[i])) violation("is_locked_wrong", "is_locked() true for lock %d after every task released it", i);
 				uint64_t sum = 0; for (int w = 0; w < 4; w++) { uint64_t v; user_read(words[i] + 8 * w, 8); memcpy(&v, words[i] + 8 * w, 8); sum += v; }
 				(void)sum;
 			}
